@@ -10,6 +10,7 @@ from dalimc.core.runner import new_result, add_violation, observe, sample
 ID = "C05"
 OPTIMISED_STRIDE = {"quick": 8, "thorough": 12}      # every k-th shard once more in an interpreter started with -O
 TRACE_STRIDE = {"quick": 8, "thorough": 12}      # every k-th shard once more with logging enabled down to TRACE
+BYTEORDER_STRIDE = {"quick": 12, "thorough": 24}      # every k-th shard once more with sys.byteorder reporting a big-endian host
 LEVEL = "model_checking"
 ENGINE = "E1"
 TECHNIQUE = "explicit-state closure: every (width,value) state x every operation vs a list-of-bits reference model"
